@@ -5,7 +5,7 @@
 set -u
 patch="$(readlink -f "$1")"; label="${2:-$(basename $(dirname "$patch"))}"
 d=$(mktemp -d /tmp/ev.XXXXXX)
-rsync -a --exclude .git /repo/ "$d/"
+rsync -a --exclude .git "${MAST_REPO:-/repo}/" "$d/"
 ( cd "$d" && patch -s -p1 < "$patch" ) || { echo "$label: PATCH DOES NOT APPLY"; rm -rf "$d"; exit 3; }
 export GOFLAGS=-mod=mod GOPROXY=off GOSUMDB=off GOTOOLCHAIN=local CGO_ENABLED=0; unset GOWORK
 ( cd "$d" && go build ./... ) >/dev/null 2>&1 || { echo "$label: DOES NOT COMPILE"; rm -rf "$d"; exit 3; }
